@@ -4,8 +4,8 @@ Requests:
   (ping)
   (cache N timeout (schedule (pid choice) ...))      choice ∈ none | fail | kill | again
      -> (ok (trace (pid op res handlers stdout) ...)           one entry per schedule entry
-            (fs lock so obj marker failed)
-            (procs (pid pc nextop polls handlers stdout) ...)
+            (fs lock so obj marker failed gen)
+            (procs (pid pc nextop polls handlers stdout tok) ...)
             (counters nLock nRel nCompile))
   (schedules N timeout depth (pids pid ...))
      -> (ok (sched pid ...) ...)   all fault-free schedules of the given pids, from the empty cache,
@@ -29,12 +29,13 @@ def gS : GVal → String
   | .user => "user" | .capture => "capture"
 
 def causeS : Cause → String
-  | .gen => "gen" | .compile => "compile" | .marker => "marker"
+  | .gen => "gen" | .compile => "compile" | .marker => "marker" | .markOpen => "markopen"
+  | .markWrite => "markwrite"
 
 def opS : Op → String
   | .lock => "lock" | .poll => "poll" | .find => "find" | .load => "load" | .gen => "gen"
   | .swap => "swap" | .src => "src" | .obj => "obj" | .link1 => "link1" | .link2 => "link2"
-  | .unredir => "unredir" | .mark => "mark" | .restore => "restore" | .release => "release"
+  | .unredir => "unredir" | .markCreate => "markcreate" | .markWrite => "markwrite" | .markRemove => "markremove" | .restore => "restore" | .release => "release"
   | .kill => "kill" | .again => "again" | .none => "none"
 
 def resS : Res → String
@@ -47,7 +48,7 @@ def pcS : Pc → Sexp
   | .wFind => .atom "wFind" | .wLoad => .atom "wLoad"
   | .bGen => .atom "bGen" | .bSwap => .atom "bSwap" | .bSrc => .atom "bSrc" | .bObj => .atom "bObj"
   | .bLink1 => .atom "bLink1" | .bLink2 => .atom "bLink2" | .bUnredir => .atom "bUnredir"
-  | .bMark => .atom "bMark" | .bRestore => .atom "bRestore" | .bFind => .atom "bFind"
+  | .bMarkCreate => .atom "bMarkCreate" | .bMarkWrite => .atom "bMarkWrite" | .bMarkRemove => .atom "bMarkRemove" | .bRestore => .atom "bRestore" | .bFind => .atom "bFind"
   | .bLoad => .atom "bLoad"
   | .bFailRestore c => .list [.atom "bFailRestore", .atom (causeS c)]
   | .bFail c => .list [.atom "bFail", .atom (causeS c)]
@@ -61,7 +62,8 @@ def pcS : Pc → Sexp
 def nextOp : Pc → String
   | .idle => "lock" | .wPoll _ => "poll" | .wFind => "find" | .wLoad => "load"
   | .bGen => "gen" | .bSwap => "swap" | .bSrc => "src" | .bObj => "obj" | .bLink1 => "link1"
-  | .bLink2 => "link2" | .bUnredir => "unredir" | .bMark => "mark" | .bRestore => "restore"
+  | .bLink2 => "link2" | .bUnredir => "unredir" | .bMarkCreate => "markcreate" | .bMarkWrite => "markwrite" | .bMarkRemove => "markremove"
+  | .bRestore => "restore"
   | .bFind => "find" | .bLoad => "load" | .bFailRestore _ => "restore" | .bFail _ => "release"
   | .done _ _ | .raised _ | .dead => "none"
 
@@ -88,7 +90,7 @@ def scheduleOf (s : Sexp) : Except String (List (Nat × Choice)) := do
 
 def fsS (fs : FS) : Sexp :=
   .list [.atom "fs", .atom (lockS fs.lock), .atom (soS fs.so), Sexp.ofBool fs.obj,
-    Sexp.ofBool fs.marker, Sexp.ofBool fs.failed]
+    Sexp.ofBool fs.marker, Sexp.ofBool fs.failed, Sexp.ofNat fs.gen]
 
 def cache (n timeout : Nat) (sch : List (Nat × Choice)) : Sexp :=
   let r := runTrace (init n timeout) sch
@@ -97,7 +99,7 @@ def cache (n timeout : Nat) (sch : List (Nat × Choice)) : Sexp :=
   let s := r.2
   let procs := (List.range s.procs.length).zip s.procs |>.map fun (i, p) =>
     Sexp.list [Sexp.ofNat i, pcS p.pc, .atom (nextOp p.pc), Sexp.ofNat p.polls,
-      .atom (gS p.g.handlers), .atom (gS p.g.stdout)]
+      .atom (gS p.g.handlers), .atom (gS p.g.stdout), Sexp.ofNat p.tok]
   .list [.atom "ok", .list (.atom "trace" :: tr), fsS s.fs, .list (.atom "procs" :: procs),
     .list [.atom "counters", Sexp.ofNat s.nLock, Sexp.ofNat s.nRel, Sexp.ofNat s.nCompile]]
 
